@@ -22,6 +22,9 @@ def run(chk):
     # ------------------------------------------------------------------ C02.c..f (database cross-checks)
     a64common.rule_db(chk, A)
 
+    # ------------------------------------------------------------------ C02.g immediates are bounded before they are narrowed / encoded
+    a64common.rule_imm(chk, A)
+
     return chk.finish(
         level="other",
         explanation=("Static rules over a64::Assembler::_emit and the AArch64 tables of /repo's current source: "
